@@ -87,12 +87,22 @@ def _eval(node, env):
         raise Unevaluable(repr(e))
 
 
+def param_names(contract):
+    """Positional parameter names: from the def where there is one, else from the live object's signature."""
+    try:
+        return [p for p, _ in frontend.get_function(contract.fq).params()]
+    except frontend.NoSource:
+        import inspect
+
+        frontend.ensure_repo_on_path()
+        return [n for n, p in inspect.signature(resolve(contract.fq)).parameters.items() if p.kind in (p.POSITIONAL_ONLY, p.POSITIONAL_OR_KEYWORD)]
+
+
 def run_contract(contract, inputs, seconds=None):
     """inputs: {param: python value or description dict}.  None = holds / precondition not met; NativeFail otherwise."""
     frontend.ensure_repo_on_path()
     fn = resolve(contract.fq)
-    fsrc = frontend.get_function(contract.fq)
-    names = [p for p, _ in fsrc.params()]
+    names = param_names(contract)
     args = {n: build(copy.deepcopy(inputs[n])) for n in names}
     env = dict(contract.sidecar_globals)
     env.update(args)
@@ -161,8 +171,7 @@ def bounded_contract(contract, seed, seconds=10.0, budget=20000):
     if driver is not None:
         return monitor_contract(contract, driver, seed, seconds=seconds)
     gens = contract.sidecar_globals.get("GENERATORS", {})
-    fsrc = frontend.get_function(contract.fq)
-    names = [p for p, _ in fsrc.params()]
+    names = param_names(contract)
     types = [contract.args.get(n, "int") for n in names]
     for name, t in zip(names, types):
         if t not in ("int", "bool") and t not in gens and ("param:" + name) not in gens:
@@ -183,7 +192,10 @@ def bounded_contract(contract, seed, seconds=10.0, budget=20000):
             else:
                 inputs[name] = gens[t](rng)
         n += 1
-        f = run_contract(contract, inputs)
+        try:
+            f = run_contract(contract, inputs)
+        except MemoryError:
+            continue  # this child's address-space cap, not a verdict about the contract: the input is skipped
         if f is not None:
             return {"ran": True, "evaluations": STATS["pre_ok"] - pre0, "fail": f}
     ok = STATS["pre_ok"] - pre0
@@ -314,8 +326,7 @@ def monitor_contract(contract, driver, seed, seconds=15.0, budget=4000):
 
     frontend.ensure_repo_on_path()
     fn = resolve(contract.fq)
-    fsrc = frontend.get_function(contract.fq)
-    names = [p for p, _ in fsrc.params()]
+    names = param_names(contract)
     calls = [0]
 
     def wrapper(*a, **kw):
